@@ -559,7 +559,17 @@ func (m *NodeManager) synchronizeBlocks(ctx context.Context, interrupt <-chan in
 		// Get previous header hash
 		previousHash, _ := m.headers.PreviousHash(hash)
 		if previousHash == nil {
-			return nil // headers must have reorged
+			// The header is not in memory. If it is still in the most proof of work chain then it
+			// has been pruned from memory and the previous hash can be retrieved by height.
+			currentHash, err := m.headers.Hash(ctx, height)
+			if err != nil || !currentHash.Equal(&hash) {
+				return nil // headers must have reorged
+			}
+
+			previousHash, err = m.headers.Hash(ctx, height-1)
+			if err != nil {
+				return errors.Wrap(err, "previous header hash")
+			}
 		}
 
 		// Check if block has already been processed
